@@ -1,1 +1,18 @@
-//! verif hook (child module): see /verif/hooks/verif.rs
+//! verif hook (child module of `buffered::unordered`)
+use super::*;
+
+impl<St> BufferUnordered<St>
+where
+    St: Stream,
+    St::Item: Future,
+{
+    pub fn verif_from_parts(stream: Option<St>, q: FuturesUnorderedBounded<St::Item>) -> Self {
+        Self { stream, in_progress_queue: q }
+    }
+    pub fn verif_stream_present(&self) -> bool {
+        self.stream.is_some()
+    }
+    pub fn verif_queue(&mut self) -> &mut FuturesUnorderedBounded<St::Item> {
+        &mut self.in_progress_queue
+    }
+}
